@@ -74,6 +74,8 @@ def collect(c, registry=None, timeout_ms=10000):
             I.calls = models
             I.loop_specs = dict(c.loops)
             I.loop_ordinals = ordinals
+            I.comp_ordinals = {id(n): i for i, n in enumerate(extract.comps_of(fn))}
+            I.comp_specs = dict(getattr(c, 'maps', {}) or {})
             I.local_defs = {n.name: n for n in ast.walk(fn) if isinstance(n, ast.FunctionDef) and n is not fn}
             I.func_lineno = fn.lineno
             I.relpath, I.qualname = c.relpath, c.qualname
